@@ -2,22 +2,22 @@ SPECIFICATION Spec
 CONSTANTS
   ArgsOf <- MCArgs
   InitHeaps <- MCInit2
-  MaxDepth = 1
+  MaxDepth = 2
   Breaks <- BreaksQ
   Degs <- DegsQ
-  MaxNpts = 5
-  Acts = {"CvSplit"}
+  MaxNpts = 4
+  Acts = {"CvSplitTake", "CvJoin"}
   PtKinds = {"gen"}
-  WtKinds = {"none", "gen"}
+  WtKinds = {"none"}
   ExtraNodes <- Extra0
   NodeSize = 2
   Scenario = "single"
   PrepDepth = 0
   OtherDegs <- DegsQ
-  OtherMaxNpts = 4
+  OtherMaxNpts = 3
 INVARIANT WellFormed
 PROPERTY FailedIsNoOp
-PROPERTY SplitRestricts
+PROPERTY JoinRestores
 ACTION_CONSTRAINT Log
 VIEW View
 CHECK_DEADLOCK FALSE
